@@ -162,6 +162,12 @@ pub struct Plan {
     /// change C07-13: a pooled attribute buffer of the class writer that is only cleared on success)
     #[serde(default)]
     pub poison_first: bool,
+    /// entries of a LIBRARY jar whose super-class provider is consulted AFTER the main jar's (`vec![main, library]`, the
+    /// first provider that knows a class answers): it bundles another copy of a main-jar class, with a super type that
+    /// has a mapped member of the same name (missed seeded change C07-16: a provider that keeps no entry for classes
+    /// directly below java/lang/Object lets the library's copy answer)
+    #[serde(default)]
+    pub lib: Vec<PEntry>,
 }
 
 #[derive(Clone, Serialize, Deserialize, Debug)]
@@ -239,12 +245,23 @@ fn is_class(name: &str) -> bool {
 /// was damaged and entry name and class name may disagree); otherwise from the class's own name, as the
 /// property states.
 fn reference(hier: &[(String, EntryData)], entries: &[(String, EntryData)], map: &MapSet, overlay: &[Ov], by_entry_name: bool) -> Reference {
+    reference_with_lib(hier, &[], entries, map, overlay, by_entry_name)
+}
+
+/// `lib`: classes of a library whose provider is asked after the main jar's: they only fill in classes the main jar
+/// does not have
+fn reference_with_lib(hier: &[(String, EntryData)], lib: &[PEntry], entries: &[(String, EntryData)], map: &MapSet, overlay: &[Ov], by_entry_name: bool) -> Reference {
     let mut supers: BTreeMap<JStr, Vec<JStr>> = BTreeMap::new();
     for (n, d) in hier {
         if let (true, EntryData::File(b)) = (is_class(n), d) {
             if let Ok(s) = refclass::parse(b) {
                 supers.insert(s.this_class.clone(), direct_supers(&s));
             }
+        }
+    }
+    for e in lib {
+        if let Ok(s) = refclass::parse(&e.data) {
+            supers.entry(s.this_class.clone()).or_insert_with(|| direct_supers(&s));
         }
     }
     let mut rho = Rho::new(map, supers);
@@ -448,7 +465,7 @@ struct RealRun {
     fuel_exhausted: bool,
 }
 
-fn run_real(jar_bytes: &[u8], hier_bytes: Option<&[u8]>, io: &IoPlan, map: &MapSet, overlay: &[Ov], order: u64, st: &mut RunStats) -> RealRun {
+fn run_real(jar_bytes: &[u8], hier_bytes: Option<&[u8]>, io: &IoPlan, map: &MapSet, overlay: &[Ov], lib: &[PEntry], order: u64, st: &mut RunStats) -> RealRun {
     let q: quill::tree::mappings::Mappings<2, Ns> = to_quill::<2>(map, if order == 0 { None } else { Some(Rng::new(order)) }.as_mut()).expect("mapping model admissible for quill");
     let jar = SimJar::new(jar_bytes.to_vec(), io);
     // `remap` takes the jar by value: a second handle on the same medium (same bytes, plan and event log)
@@ -461,6 +478,14 @@ fn run_real(jar_bytes: &[u8], hier_bytes: Option<&[u8]>, io: &IoPlan, map: &MapS
             None => jar.get_super_classes_provider(),
         }
         .map_err(|e| ("provider", e))?;
+        // the library's provider (if any) is asked after the main jar's
+        let mut provs = vec![prov];
+        if !lib.is_empty() {
+            let lib_entries: Vec<(String, EntryData)> = lib.iter().map(|e| (e.name.clone(), EntryData::File(e.data.clone()))).collect();
+            let lj = SimJar::new(build_jar(&lib_entries, false), &IoPlan::plain());
+            provs.push(lj.get_super_classes_provider().map_err(|e| ("provider", e))?);
+        }
+        let prov = provs;
         let remapper = Overlay { inner: q.remapper_b_first_to_second(&prov).map_err(|e| ("remapper", e))?, ov: overlay };
         let parsed = dukebox::remap::remap(jar2, remapper).map_err(|e| ("remap", e))?;
         let mem = parsed.to_mem().map_err(|e| ("to_mem", e))?;
@@ -805,8 +830,55 @@ impl Engine for C07 {
             entries.extend(others);
             w.shuffle(&mut entries);
         }
-        let mut p = Plan { entries, deflate: w.chance(60), map: wl.map, map_order: if w.chance(30) { 0 } else { w.next() | 1 }, io: IoPlan::plain(), provider_healthy: false, sink: None, sink_route: 0, lazy: None, overlay: vec![], poison_first: false };
+        let mut p = Plan { entries, deflate: w.chance(60), map: wl.map, map_order: if w.chance(30) { 0 } else { w.next() | 1 }, io: IoPlan::plain(), provider_healthy: false, sink: None, sink_route: 0, lazy: None, overlay: vec![], poison_first: false, lib: vec![] };
         p.poison_first = rng.split("poison-first").chance(5);
+        {
+            let mut lr = rng.split("library");
+            if lr.chance(10) {
+                // K: a main-jar class directly below Object, renamed by the mappings, with a method the mappings do not name
+                let mut cands: Vec<(Sem, String, String)> = vec![];
+                for e in &p.entries {
+                    if e.dir || !is_class(&e.name) {
+                        continue;
+                    }
+                    let Ok(sem) = refclass::parse(&e.data) else { continue };
+                    let Some(k) = sem.this_class.to_str() else { continue };
+                    if !sem.interfaces.is_empty() || sem.super_class.as_ref().and_then(|x| x.to_str()).as_deref() != Some("java/lang/Object") {
+                        continue;
+                    }
+                    let Some(cm) = p.map.classes.get(&k) else { continue };
+                    if !matches!(cm.names.first(), Some(Some(_))) {
+                        continue;
+                    }
+                    for m in &sem.methods {
+                        if let (Some(n), Some(d)) = (m.name.to_str(), m.desc.to_str()) {
+                            if !n.starts_with('<') && n.is_ascii() && d.is_ascii() && !cm.methods.contains_key(&crate::refmap::mkey(&n, &d)) {
+                                cands.push((sem.clone(), n, d));
+                            }
+                        }
+                    }
+                }
+                if !cands.is_empty() && !p.map.classes.contains_key("verif/lib/Base") {
+                    let (k, n, d) = lr.pick(&cands).clone();
+                    let base = Sem {
+                        major: 52,
+                        access: 0x0421,
+                        this_class: JStr::from_str("verif/lib/Base"),
+                        super_class: Some(JStr::from_str("java/lang/Object")),
+                        methods: vec![refclass::sem::Method { access: 0x0401, name: JStr::from_str(&n), desc: JStr::from_str(&d), ..Default::default() }],
+                        ..Sem::default()
+                    };
+                    let copy = Sem { major: 52, access: 0x0021, this_class: k.this_class.clone(), super_class: Some(JStr::from_str("verif/lib/Base")), ..Sem::default() };
+                    if let (Ok(b), Ok(c)) = (refclass::encode(&base, &refclass::Layout::default()), refclass::encode(&copy, &refclass::Layout::default())) {
+                        p.lib.push(PEntry { name: "verif/lib/Base.class".into(), dir: false, data: b.bytes });
+                        p.lib.push(PEntry { name: format!("{}.class", jname(&k.this_class)), dir: false, data: c.bytes });
+                        let mut cm = crate::refmap::ClassM { names: vec![Some("verif/libx/Base".to_string())], ..Default::default() };
+                        cm.methods.insert(crate::refmap::mkey(&n, &d), crate::refmap::MemberM { names: vec![Some(format!("{n}_fromlib"))], ..Default::default() });
+                        p.map.classes.insert("verif/lib/Base".to_string(), cm);
+                    }
+                }
+            }
+        }
         // ---- a caller-written remapper over the mapping-based one: new names for members (declared or referred to in
         // the jar) of classes the mappings do not rename (missed seeded change C07-10)
         {
@@ -991,11 +1063,11 @@ impl Engine for C07 {
 
         // ---------------- T0: plain medium against the reference
         st.tier("T0");
-        let r0 = reference(&entries, &entries, &p.map, &p.overlay, false);
+        let r0 = reference_with_lib(&entries, &p.lib, &entries, &p.map, &p.overlay, false);
         for (k, v) in &r0.changed {
             st.probe_n(k, *v);
         }
-        let t0 = run_real(&jar, None, &IoPlan::plain(), &p.map, &p.overlay, p.map_order, st);
+        let t0 = run_real(&jar, None, &IoPlan::plain(), &p.map, &p.overlay, &p.lib, p.map_order, st);
         let t0_entries = match t0.out {
             RealOut::Panic(pm) => {
                 push_dedup(&mut out, &mut seen, Violation::new("T0", "panic", format!("remap:{}", panic_path(&pm)), pm));
@@ -1025,7 +1097,7 @@ impl Engine for C07 {
             let tier = if legal { "T1" } else { "T2" };
             st.tier(if legal { "T1" } else { "T2" });
             let hier = if p.provider_healthy && !legal { Some(&jar[..]) } else { None };
-            let run = run_real(&jar, hier, &p.io, &p.map, &p.overlay, p.map_order, st);
+            let run = run_real(&jar, hier, &p.io, &p.map, &p.overlay, &p.lib, p.map_order, st);
             if run.fuel_exhausted {
                 push_dedup(&mut out, &mut seen, Violation::new(tier, "runaway", "remap", "medium fuel exhausted"));
             }
@@ -1065,7 +1137,7 @@ impl Engine for C07 {
                                 Ok(dl) => {
                                     st.probe("t2.ok_on_altered_bytes");
                                     let hier_entries = if p.provider_healthy { entries.clone() } else { dl.clone() };
-                                    let r2 = reference(&hier_entries, &dl, &p.map, &p.overlay, true);
+                                    let r2 = reference_with_lib(&hier_entries, &p.lib, &dl, &p.map, &p.overlay, true);
                                     if r2.unparseable > 0 {
                                         st.probe_n("lenient_accept", r2.unparseable as u64);
                                     }
@@ -1084,7 +1156,7 @@ impl Engine for C07 {
             }
             if !legal {
                 // heal: the same operation on the healthy medium gives the plain answer again
-                let again = run_real(&jar, None, &IoPlan::plain(), &p.map, &p.overlay, p.map_order, st);
+                let again = run_real(&jar, None, &IoPlan::plain(), &p.map, &p.overlay, &p.lib, p.map_order, st);
                 match again.out {
                     RealOut::Ok(v) if v == t0_entries => {}
                     RealOut::Ok(_) => push_dedup(&mut out, &mut seen, Violation::new("T2", "residue-after-heal", "entries", "the healthy retry differs from the first plain run")),
@@ -1188,6 +1260,11 @@ impl Engine for C07 {
         if p.poison_first {
             let mut q = p.clone();
             q.poison_first = false;
+            c.push(q);
+        }
+        if !p.lib.is_empty() {
+            let mut q = p.clone();
+            q.lib.clear();
             c.push(q);
         }
         if !p.overlay.is_empty() {
